@@ -1,1 +1,410 @@
-fn main() {}
+//! sci-feat: C20 — built once per advertised feature set of stats-ci. Each build runs a smoke
+//! workload against that configuration; builds with `serde` also run the round-trip monitor.
+//!   sci-feat run --set <name> --partial <file> [--tier ..] [--seed ..]
+//! The partial results are aggregated by `sci-monitor C20` (built with default features).
+use sci_common::dist::{t_ppf, wilson_roots, norm_ppf};
+use sci_common::rt::{caught, hash_str, install_panic_hook, mix, Cfg, Local, Rng, Run};
+use serde_json::{json, Value};
+use stats_ci::*;
+
+fn approx_eq(a: f64, b: f64, tol: f64) -> bool {
+    (a - b).abs() <= tol * (1.0 + b.abs())
+}
+
+/// one judged call per public module, against oracles shared with the main monitor
+fn smoke(set: &str, l: &mut Local) {
+    let check = |what: &str, ok: bool, detail: Value, l: &mut Local| {
+        l.eval();
+        l.count("smoke call judged");
+        l.nontrivial(mix(&[hash_str(set), hash_str(what)]));
+        if !ok {
+            l.violation(format!("smoke|{}|{}", set, what), format!("under feature set '{}' the smoke call {} misbehaves", set, what), json!({"set": set, "what": what}), detail);
+        }
+        if l.wants_sample(&format!("smoke:{}", set)) {
+            l.sample(&format!("smoke:{}", set), || json!({"feature_set": set, "call": what, "ok": ok}));
+        }
+    };
+    // mean
+    let data = [1., 2., 3., 4., 5., 6., 7., 8., 9., 10.];
+    let c95 = Confidence::new_two_sided(0.95);
+    let r = caught(|| mean::Arithmetic::<f64>::ci(c95, &data));
+    let (m, s, n) = (5.5f64, (55.0f64 / 6.0).sqrt(), 10f64);
+    let t = t_ppf(0.975, 9.0);
+    let (elo, ehi) = (m - t * s / n.sqrt(), m + t * s / n.sqrt());
+    let ok = matches!(&r, Ok(Ok(i)) if approx_eq(i.low_f(), elo, 1e-9) && approx_eq(i.high_f(), ehi, 1e-9));
+    check("mean::Arithmetic::ci", ok, json!({"observed": format!("{:?}", r.map_err(|p| p.message)), "expected": [elo, ehi]}), l);
+    let r = caught(|| mean::Geometric::<f64>::ci(c95, &data).and_then(|g| mean::Harmonic::<f64>::ci(c95, &data).map(|h| (g, h))));
+    let ok = matches!(&r, Ok(Ok((g, h))) if h.low_f() < g.low_f() && g.high_f() < ehi && g.low_f() > 0.0);
+    check("mean::Geometric/Harmonic::ci", ok, json!({"observed": format!("{:?}", r.map_err(|p| p.message))}), l);
+    // comparison
+    let b = [0.5, 2.5, 2.0, 4.5, 4.0, 7.0, 6.0, 9.0, 8.5, 9.0];
+    let d: Vec<f64> = data.iter().zip(b.iter()).map(|(x, y)| x - y).collect();
+    let r1 = caught(|| comparison::Paired::<f64>::ci(c95, &data, &b));
+    let r2 = caught(|| mean::Arithmetic::<f64>::ci(c95, &d));
+    let ok = matches!((&r1, &r2), (Ok(Ok(x)), Ok(Ok(y))) if x == y);
+    check("comparison::Paired::ci", ok, json!({"paired": format!("{:?}", r1.map_err(|p| p.message)), "mean_of_differences": format!("{:?}", r2.map_err(|p| p.message))}), l);
+    let r = caught(|| comparison::Unpaired::<f64>::ci(c95, &data, &b));
+    let ok = matches!(&r, Ok(Ok(i)) if i.contains(&(5.5 - 5.3)) && i.is_two_sided());
+    check("comparison::Unpaired::ci", ok, json!({"observed": format!("{:?}", r.map_err(|p| p.message))}), l);
+    // proportion
+    let r = caught(|| proportion::ci(c95, 100, 40));
+    let z = norm_ppf(0.975);
+    let (rl, ru) = wilson_roots(100.0, 40.0, z);
+    let ok = matches!(&r, Ok(Ok(i)) if approx_eq(i.low_f(), rl, 1e-12) && approx_eq(i.high_f(), ru, 1e-12));
+    check("proportion::ci", ok, json!({"observed": format!("{:?}", r.map_err(|p| p.message)), "expected": [rl, ru]}), l);
+    // quantile
+    let q = caught(|| quantile::ci(c95, &[8, 11, 12, 13, 15, 17, 19, 20, 21, 21, 22, 23, 25, 26, 28], 0.5));
+    let ok = matches!(&q, Ok(Ok(i)) if i.contains(&20) && *i == Interval::new(15, 23).unwrap());
+    check("quantile::ci", ok, json!({"observed": format!("{:?}", q.map_err(|p| p.message))}), l);
+    let qi = caught(|| quantile::ci_indices(c95, 15, 0.5));
+    let ok = matches!(&qi, Ok(Ok(i)) if *i == Interval::new(4, 11).unwrap() || *i == Interval::new(4usize, 11usize).unwrap());
+    check("quantile::ci_indices", ok, json!({"observed": format!("{:?}", qi.map_err(|p| p.message))}), l);
+    // interval + confidence + utils + error
+    let i = Interval::new(2.0, 4.0).unwrap();
+    let ok = i.contains(&3.0) && !i.contains(&5.0) && i.intersects(&Interval::new_upper(4.0)) && (i * 2.0 == Interval::new(4.0, 8.0).unwrap()) && format!("{}", i) == "[2, 4]";
+    check("Interval", ok, json!({"interval": format!("{:?}", i)}), l);
+    let ok = Confidence::new_upper(0.9).flipped() == Confidence::new_lower(0.9) && Confidence::try_from(1.5f64).is_err();
+    check("Confidence", ok, json!({}), l);
+    let mut k = utils::KahanSum::<f32>::default();
+    for _ in 0..10_000 {
+        k += 0.1;
+    }
+    let ok = (k.value() as f64 - 10_000.0 * (0.1f32 as f64)).abs() <= 4.0 * 6e-8 * 1000.0;
+    check("utils::KahanSum", ok, json!({"value": k.value()}), l);
+    let e = error::CIError::TooFewSamples(1);
+    check("error::CIError", !format!("{}", e).is_empty(), json!({}), l);
+    #[cfg(feature = "approx")]
+    {
+        use approx::AbsDiffEq;
+        let a = Interval::new(1.0, 2.0).unwrap();
+        let b = Interval::new(1.0 + 1e-9, 2.0).unwrap();
+        let ok = a.abs_diff_eq(&b, 1e-6) && !a.abs_diff_eq(&b, 1e-12) && !a.abs_diff_eq(&Interval::new_upper(1.0), 1.0);
+        check("approx::AbsDiffEq for Interval", ok, json!({}), l);
+        l.count("approx feature exercised");
+    }
+}
+
+#[cfg(feature = "serde")]
+mod roundtrip {
+    use super::*;
+    use serde::de::DeserializeOwned;
+    use serde::Serialize;
+    use stats_ci::comparison::{Paired, Unpaired};
+    use stats_ci::mean::{Arithmetic, Geometric, Harmonic};
+
+    fn via_json<T: Serialize + DeserializeOwned>(v: &T) -> Result<T, String> {
+        let s = serde_json::to_string(v).map_err(|e| format!("json serialise: {}", e))?;
+        serde_json::from_str(&s).map_err(|e| format!("json deserialise: {} (text {})", e, &s[..s.len().min(200)]))
+    }
+    fn via_cbor<T: Serialize + DeserializeOwned>(v: &T) -> Result<T, String> {
+        let mut buf = vec![];
+        ciborium::ser::into_writer(v, &mut buf).map_err(|e| format!("cbor serialise: {}", e))?;
+        ciborium::de::from_reader(&buf[..]).map_err(|e| format!("cbor deserialise: {}", e))
+    }
+
+    pub trait State: Serialize + DeserializeOwned + Clone + PartialEq + std::fmt::Debug {
+        const NAME: &'static str;
+        fn build(r: &mut Rng, n: usize) -> Self;
+        fn feed(&mut self, r: &mut Rng, n: usize);
+        fn queries(&self) -> String;
+    }
+
+    fn val<F: num_traits::Float>(r: &mut Rng) -> F {
+        F::from(1.0 + r.f64() * 99.0 + if r.chance(0.2) { 1e6 } else { 0.0 }).unwrap()
+    }
+
+    macro_rules! mean_state {
+        ($ty:ident, $f:ty, $name:expr) => {
+            impl State for $ty<$f> {
+                const NAME: &'static str = $name;
+                fn build(r: &mut Rng, n: usize) -> Self {
+                    let mut s = <$ty<$f>>::new();
+                    s.feed(r, n);
+                    s
+                }
+                fn feed(&mut self, r: &mut Rng, n: usize) {
+                    for _ in 0..n {
+                        StatisticsOps::append(self, val::<$f>(r)).unwrap();
+                    }
+                    if r.chance(0.3) {
+                        // merged partial states as well
+                        let mut o = <$ty<$f>>::new();
+                        for _ in 0..r.below(20) {
+                            StatisticsOps::append(&mut o, val::<$f>(r)).unwrap();
+                        }
+                        *self += o;
+                    }
+                }
+                fn queries(&self) -> String {
+                    let n = self.sample_count();
+                    let mut s = format!("n={}", n);
+                    if n >= 1 {
+                        s += &format!(" mean={:?}", self.sample_mean().to_bits());
+                    }
+                    if n >= 2 {
+                        s += &format!(" sem={:?}", self.sample_sem().to_bits());
+                        for c in [Confidence::TwoSided(0.95), Confidence::UpperOneSided(0.8), Confidence::LowerOneSided(0.3)] {
+                            s += &format!(" ci={:?}", self.ci_mean(c).map(|i| format!("{:?}", i)).map_err(|e| format!("{:?}", e)));
+                        }
+                    }
+                    s
+                }
+            }
+        };
+    }
+    mean_state!(Arithmetic, f64, "Arithmetic<f64>");
+    mean_state!(Arithmetic, f32, "Arithmetic<f32>");
+    mean_state!(Geometric, f64, "Geometric<f64>");
+    mean_state!(Geometric, f32, "Geometric<f32>");
+    mean_state!(Harmonic, f64, "Harmonic<f64>");
+    mean_state!(Harmonic, f32, "Harmonic<f32>");
+
+    macro_rules! cmp_state {
+        ($f:ty) => {
+            impl State for Paired<$f> {
+                const NAME: &'static str = concat!("Paired<", stringify!($f), ">");
+                fn build(r: &mut Rng, n: usize) -> Self {
+                    let mut s = Paired::<$f>::default();
+                    s.feed(r, n);
+                    s
+                }
+                fn feed(&mut self, r: &mut Rng, n: usize) {
+                    for _ in 0..n {
+                        self.append_pair(val::<$f>(r), val::<$f>(r)).unwrap();
+                    }
+                }
+                fn queries(&self) -> String {
+                    let n = self.sample_count();
+                    let mut s = format!("n={}", n);
+                    if n >= 2 {
+                        s += &format!(" mean={:?} sem={:?} ci={:?}", self.sample_mean().to_bits(), self.sample_sem().to_bits(), self.ci_mean(Confidence::TwoSided(0.9)).map(|i| format!("{:?}", i)).map_err(|e| format!("{:?}", e)));
+                    }
+                    s
+                }
+            }
+            impl State for Unpaired<$f> {
+                const NAME: &'static str = concat!("Unpaired<", stringify!($f), ">");
+                fn build(r: &mut Rng, n: usize) -> Self {
+                    let mut s = Unpaired::<$f>::default();
+                    s.feed(r, n);
+                    s
+                }
+                fn feed(&mut self, r: &mut Rng, n: usize) {
+                    for _ in 0..n {
+                        if r.bool() {
+                            self.append_a(val::<$f>(r)).unwrap();
+                        } else {
+                            self.append_b(val::<$f>(r)).unwrap();
+                        }
+                    }
+                }
+                fn queries(&self) -> String {
+                    let (na, nb) = (self.stats_a().sample_count(), self.stats_b().sample_count());
+                    let mut s = format!("na={} nb={}", na, nb);
+                    if na >= 2 && nb >= 2 {
+                        for c in [Confidence::TwoSided(0.95), Confidence::UpperOneSided(0.6)] {
+                            s += &format!(" ci={:?}", self.ci_mean(c).map(|i| format!("{:?}", i)).map_err(|e| format!("{:?}", e)));
+                        }
+                    }
+                    s
+                }
+            }
+        };
+    }
+    cmp_state!(f64);
+    cmp_state!(f32);
+
+    impl State for proportion::Stats {
+        const NAME: &'static str = "proportion::Stats";
+        fn build(r: &mut Rng, n: usize) -> Self {
+            let mut s = proportion::Stats::default();
+            s.feed(r, n);
+            s
+        }
+        fn feed(&mut self, r: &mut Rng, n: usize) {
+            for _ in 0..n {
+                if r.chance(0.4) {
+                    self.add_success()
+                } else {
+                    self.add_failure()
+                }
+            }
+        }
+        fn queries(&self) -> String {
+            format!("{} {} {:?}", self.population(), self.successes(), self.ci(Confidence::TwoSided(0.9)).map(|i| format!("{:?}", i)).map_err(|e| format!("{:?}", e)))
+        }
+    }
+
+    fn judge_state<S: State>(seed: u64, i: u64, l: &mut Local) {
+        let mut r = Rng::from(&[seed, hash_str(S::NAME), i]);
+        let n = match i % 5 {
+            0 => r.below(3) as usize,
+            1 => r.range(2, 30) as usize,
+            _ => r.range(30, 3000) as usize,
+        };
+        let original = S::build(&mut r, n);
+        let dbg = format!("{:?}", original);
+        let nz = crate::nonzero_compensation(&dbg);
+        l.count_s(format!("roundtrip:{}", S::NAME));
+        if nz == Some(true) {
+            l.count("serialised states with non-zero compensation");
+        }
+        if nz.is_some() {
+            l.count("serialised states with a compensation term");
+        }
+        l.nontrivial(mix(&[hash_str(S::NAME), hash_str(&dbg)]));
+        let cont_seed = r.next_u64();
+        for (fmt, back) in [("json", via_json(&original)), ("cbor", via_cbor(&original))] {
+            l.eval();
+            let case = || json!({"type": S::NAME, "i": i, "format": fmt});
+            let restored = match back {
+                Ok(v) => v,
+                Err(e) => {
+                    l.violation(format!("roundtrip|{}|{}|codec-error", S::NAME, fmt), format!("{} state does not survive {}: {}", S::NAME, fmt, e), case(), json!({"state": dbg}));
+                    continue;
+                }
+            };
+            if restored != original || format!("{:?}", restored) != dbg {
+                l.violation(format!("roundtrip|{}|{}|restored-differs", S::NAME, fmt), "the restored state is not equal / not Debug-identical to the original (a field was lost)".to_string(), case(), json!({"original": dbg, "restored": format!("{:?}", restored)}));
+                continue;
+            }
+            if restored.queries() != original.queries() {
+                l.violation(format!("roundtrip|{}|{}|queries-differ", S::NAME, fmt), "the restored state answers a query differently".to_string(), case(), json!({"original": original.queries(), "restored": restored.queries()}));
+            }
+            // continuation: both copies fed the same observations
+            let (mut a, mut b) = (original.clone(), restored);
+            let k = 1 + (i % 40) as usize;
+            a.feed(&mut Rng::new(cont_seed), k);
+            b.feed(&mut Rng::new(cont_seed), k);
+            l.eval();
+            if a != b || format!("{:?}", a) != format!("{:?}", b) || a.queries() != b.queries() {
+                l.violation(format!("roundtrip|{}|{}|continuation-diverges", S::NAME, fmt), "after the same continuation the restored state diverges from the original".to_string(), case(), json!({"original_after": format!("{:?}", a), "restored_after": format!("{:?}", b)}));
+            }
+        }
+        if l.wants_sample(&format!("roundtrip:{}", S::NAME)) {
+            l.sample(&format!("roundtrip:{}", S::NAME), || json!({"type": S::NAME, "state": dbg, "json": serde_json::to_string(&original).unwrap_or_default(), "queries": original.queries()}));
+        }
+    }
+
+    fn judge_values(seed: u64, i: u64, l: &mut Local) {
+        let mut r = Rng::from(&[seed, 0x7a1, i]);
+        macro_rules! rt {
+            ($v:expr, $name:expr) => {{
+                let v = $v;
+                l.count_s(format!("roundtrip:{}", $name));
+                l.nontrivial(mix(&[hash_str($name), hash_str(&format!("{:?}", v))]));
+                for (fmt, back) in [("json", via_json(&v)), ("cbor", via_cbor(&v))] {
+                    l.eval();
+                    let ok = matches!(&back, Ok(b) if *b == v && format!("{:?}", b) == format!("{:?}", v));
+                    if !ok {
+                        l.violation(format!("roundtrip|{}|{}|restored-differs", $name, fmt), format!("{} does not survive a {} round trip", $name, fmt), json!({"type": $name, "i": i}), json!({"value": format!("{:?}", v), "restored": format!("{:?}", back)}));
+                    }
+                }
+            }};
+        }
+        let lv = *r.pick(&[0.001, 0.5, 0.95, 0.999, 0.1 + 0.2]);
+        rt!(Confidence::TwoSided(lv), "Confidence");
+        rt!(Confidence::UpperOneSided(lv), "Confidence");
+        rt!(Confidence::LowerOneSided(lv), "Confidence");
+        let (a, b) = (r.range(-1000, 1000), r.range(0, 1000));
+        rt!(Interval::TwoSided(a, a + b), "Interval<i64>");
+        rt!(Interval::UpperOneSided(a), "Interval<i64>");
+        rt!(Interval::LowerOneSided(a), "Interval<i64>");
+        let (x, w) = (r.uniform(-1e3, 1e3), r.f64() * 10.0);
+        rt!(Interval::TwoSided(x, x + w), "Interval<f64>");
+        rt!(Interval::TwoSided(-0.0f64, 0.1 + 0.2), "Interval<f64>");
+        rt!(Interval::UpperOneSided(x), "Interval<f64>");
+        rt!(Interval::LowerOneSided(x as f32), "Interval<f32>");
+        rt!(Interval::TwoSided(format!("a{}", a), format!("b{}", b)), "Interval<String>");
+        rt!(Interval::UpperOneSided(format!("\"q{}\u{e9}\n", a)), "Interval<String>");
+        rt!(Interval::LowerOneSided(String::new()), "Interval<String>");
+    }
+
+    pub fn run(seed: u64, n: u64, l: &mut Local) {
+        for i in 0..n {
+            judge_state::<Arithmetic<f64>>(seed, i, l);
+            judge_state::<Arithmetic<f32>>(seed, i, l);
+            judge_state::<Geometric<f64>>(seed, i, l);
+            judge_state::<Geometric<f32>>(seed, i, l);
+            judge_state::<Harmonic<f64>>(seed, i, l);
+            judge_state::<Harmonic<f32>>(seed, i, l);
+            judge_state::<Paired<f64>>(seed, i, l);
+            judge_state::<Paired<f32>>(seed, i, l);
+            judge_state::<Unpaired<f64>>(seed, i, l);
+            judge_state::<Unpaired<f32>>(seed, i, l);
+            judge_state::<proportion::Stats>(seed, i, l);
+            judge_values(seed, i, l);
+        }
+    }
+}
+
+/// coverage metric: does the Debug rendering contain a non-zero compensation term?
+#[allow(dead_code)]
+pub fn nonzero_compensation(dbg: &str) -> Option<bool> {
+    let mut found = false;
+    let mut any = false;
+    let mut rest = dbg;
+    while let Some(i) = rest.find("compensation: ") {
+        found = true;
+        let tail = &rest[i + 14..];
+        let end = tail.find(|c: char| c == ' ' || c == ',' || c == '}').unwrap_or(tail.len());
+        match tail[..end].parse::<f64>() {
+            Ok(v) => {
+                if v != 0.0 {
+                    any = true
+                }
+            }
+            Err(_) => return None,
+        }
+        rest = &tail[end..];
+    }
+    if found {
+        Some(any)
+    } else {
+        None
+    }
+}
+
+fn arg(args: &[String], name: &str) -> Option<String> {
+    args.iter().position(|a| a == name).and_then(|i| args.get(i + 1).cloned())
+}
+
+fn main() {
+    let args: Vec<String> = std::env::args().skip(1).collect();
+    install_panic_hook();
+    let mode = args.first().cloned().unwrap_or_default();
+    if mode == "run" {
+        // one configuration: write a partial result
+        let set = arg(&args, "--set").unwrap_or_else(|| "?".into());
+        let partial = arg(&args, "--partial").expect("--partial");
+        let cfg = Cfg::parse(&["C20".to_string()].iter().cloned().chain(args[1..].iter().cloned()).collect::<Vec<_>>());
+        let seed = cfg.seed;
+        let quick = cfg.quick();
+        let run = Run::new(cfg);
+        let mut l = run.local();
+        l.per_class_samples = 1;
+        smoke(&set, &mut l);
+        #[cfg(feature = "serde")]
+        {
+            let n = if quick { 150 } else { 8000 };
+            roundtrip::run(seed, n, &mut l);
+            l.count_s(format!("serde round trips run under '{}'", set));
+        }
+        let _ = (seed, quick);
+        let distinct = l.distinct.count();
+        let doc = json!({
+            "set": set,
+            "evals": l.evals,
+            "nontrivial": l.nontrivial,
+            "distinct": distinct,
+            "classes": l.counts.iter().map(|(k, v)| (k.to_string(), *v)).chain(l.counts_s.iter().map(|(k, v)| (k.clone(), *v))).collect::<std::collections::BTreeMap<String, u64>>(),
+            "samples": l.samples,
+            "violations": l.violations.values().map(|(v, n)| json!({"sig": v.sig, "what": v.what, "case": v.case, "detail": v.detail, "n": n})).collect::<Vec<_>>(),
+        });
+        std::fs::write(&partial, serde_json::to_string_pretty(&doc).unwrap()).expect("write partial");
+        println!("partial written: set={} evals={} violations={}", set, l.evals, l.violations.len());
+        std::process::exit(0);
+    }
+    eprintln!("usage: sci-feat run --set <name> --partial <file> [--tier ..] [--seed ..]");
+    std::process::exit(2);
+}
